@@ -53,6 +53,7 @@ class Ctx:
         self.exhaustive = False
         self.rule = ""
         self._drv = None
+        self.partial = None
         self._nrep = 0
         self.env = dict(os.environ)
         self.env.update(GOENV)
@@ -302,6 +303,8 @@ def run_check(pid, tier, fn, level="model_checking"):
     ctx = Ctx(pid, tier, level)
     try:
         expl = fn(ctx) or ""
+        if ctx.partial and not ctx.violations:
+            raise Undecided(ctx.partial)
         rc = ctx.finish(expl)
     except Undecided as u:
         print("UNDECIDED property=%s: %s" % (pid, u))
